@@ -28,10 +28,10 @@ assert patch.strip(), "no change in the worktree"
 open(f"{out}/patch.diff", "w").write(patch)
 t = sh(f"cd {wt} && /venv/bin/python -m pytest -q -p no:cacheprovider --continue-on-collection-errors 2>&1 | tail -1", env=env).stdout.strip()
 d1 = sh(f"cd {wt} && /venv/bin/python MUTATION/demo.py", env=env)
-sh(f"git -C {wt} stash -- src")
+assert sh(f"git -C {wt} apply -R {out}/patch.diff").returncode == 0   # (git stash is shared between worktrees)
 t0 = sh(f"cd {wt} && /venv/bin/python -m pytest -q -p no:cacheprovider --continue-on-collection-errors 2>&1 | tail -1", env=env).stdout.strip()
 d0 = sh(f"cd {wt} && /venv/bin/python MUTATION/demo.py", env=env)
-sh(f"git -C {wt} stash pop")
+assert sh(f"git -C {wt} apply {out}/patch.diff").returncode == 0
 confirmed = "39 passed" in t and "39 passed" in t0 and d1.returncode != 0 and d0.returncode == 0
 print("tests with change:", t, "| demo with change rc", d1.returncode, "| demo without rc", d0.returncode, "| confirmed:", confirmed)
 for f in ("demo.py", "notes.md"):
